@@ -64,6 +64,7 @@ class ItemSpec:
     iters: dict = field(default_factory=dict)
     closures: dict = field(default_factory=dict)
     forloops: dict = field(default_factory=dict)
+    structural: bool = False
     drop_attrs: list = field(default_factory=list)
     replace_self: str = ''
     src_line: int = 0
@@ -123,6 +124,8 @@ def parse_vc(text):
             elif kw == 'iter':
                 k, nm = rest.split()
                 cur.iters[int(k)] = nm
+            elif kw == 'structural':
+                cur.structural = True
             elif kw == 'forloop':
                 k, nm = rest.split()
                 cur.forloops[int(k)] = nm
@@ -134,8 +137,12 @@ def parse_vc(text):
             elif kw in ('sig', 'body', 'tail'):
                 sec = Section(kw, src_line=ln)
                 cur.sections.append(sec)
-            elif kw in ('loop', 'loop-body', 'loop-end'):
+            elif kw in ('loop', 'loop-body', 'loop-end', 'loop-after'):
                 sec = Section(kw, n=int(rest), src_line=ln)
+                cur.sections.append(sec)
+            elif kw == 'closure-spec':
+                parts = rest.split(None, 2)
+                sec = Section(kw, arg='%s %s' % (parts[1], parts[2]), n=int(parts[0]), src_line=ln)
                 cur.sections.append(sec)
             elif kw in ('before', 'after'):
                 k, _, pat = rest.partition(' ')
@@ -260,6 +267,65 @@ def _find_pattern(toks, pat_toks, lo, hi):
     return hits
 
 
+
+def _closures(toks, lo, hi):
+    """closures within [lo,hi): list of (bar_open, bar_close, body_start, body_end, is_block).
+    A `|` starts a closure when it stands where an expression starts."""
+    out = []
+    k = lo
+    starters = {'(', ',', '=', '{', ';', '>', ':', '[', '!', '&'}
+    while k < hi:
+        t = toks[k]
+        if t.kind == 'punct' and t.text == '|':
+            prev = toks[k - 1] if k > lo else None
+            is_start = prev is None or (prev.kind == 'punct' and prev.text in starters) or (prev.kind == 'ident' and prev.text in ('move', 'return', 'in', 'else'))
+            # `a || b` / `a | b`: previous token is an operand -> not a closure
+            if is_start:
+                # find closing bar
+                if k + 1 < hi and toks[k + 1].text == '|' and toks[k + 1].start == t.end:
+                    bc = k + 1
+                else:
+                    j = k + 1
+                    bc = -1
+                    while j < hi:
+                        u = toks[j]
+                        if u.kind == 'punct' and u.text in ('(', '[', '{'):
+                            j = match_close(toks, j) + 1
+                            continue
+                        if u.kind == 'punct' and u.text == '|':
+                            bc = j
+                            break
+                        j += 1
+                    if bc < 0:
+                        k += 1
+                        continue
+                bs = bc + 1
+                # optional `-> T`
+                if toks[bs].text == '-' and toks[bs + 1].text == '>':
+                    j = bs + 2
+                    while not (toks[j].kind == 'punct' and toks[j].text == '{'):
+                        j += 1
+                    bs = j
+                if toks[bs].kind == 'punct' and toks[bs].text == '{':
+                    be = match_close(toks, bs)
+                    out.append((k, bc, bs, be, True))
+                else:
+                    j = bs
+                    while j < hi:
+                        u = toks[j]
+                        if u.kind == 'punct' and u.text in ('(', '[', '{'):
+                            j = match_close(toks, j) + 1
+                            continue
+                        if u.kind == 'punct' and u.text in (',', ')', ']', '}', ';'):
+                            break
+                        j += 1
+                    out.append((k, bc, bs, j - 1, False))
+                k = bc + 1
+                continue
+        k += 1
+    return out
+
+
 def weave_item(repo, spec):
     """Return dict(text=woven text, extracted_tokens=[...], rules={R0:..}, dropped_attrs=[...], sha=..., lines=(a,b))"""
     toks, src, dropped, (it, alltoks) = extract(repo, spec)
@@ -281,7 +347,7 @@ def weave_item(repo, spec):
     # insertion map: token index -> list of (order, text) inserted BEFORE that token
     ins_before = {}
     ins_after = {}
-    rules = {'R0': 0, 'R1': 0, 'R2': 0, 'R3': 0, 'R4': 0}
+    rules = {'R0': 0, 'R1': 0, 'R2': 0, 'R3': 0, 'R4': 0, 'R5': 0, 'R6': 0}
     r4c = {}
     obligations = []   # (label, props, kind)
 
@@ -315,6 +381,21 @@ def weave_item(repo, spec):
         else:
             add_before(s, '/*R3<*/pub /*>R3*/')
             rules['R3'] += 1
+
+    if spec.structural:
+        # R5: `#[derive(.., PartialEq, Eq, ..)]` => `#[derive(.., PartialEq, Eq, .., Structural)]`
+        # (Verus marker trait stating that `==` is the derived, structural equality)
+        done5 = False
+        for k in range(0, kw):
+            if toks[k].text == 'derive' and toks[k + 1].text == '(':
+                e5 = match_close(toks, k + 1)
+                names = [t.text for t in toks[k + 2:e5]]
+                if 'PartialEq' in names and 'Eq' in names:
+                    add_before(e5, '/*R5<*/, Structural/*>R5*/')
+                    rules['R5'] += 1
+                    done5 = True
+        if not done5:
+            raise Undecided('structural: no derive(PartialEq, Eq) on %s' % spec.name)
 
     if spec.ret:
         if not is_fn:
@@ -419,7 +500,7 @@ def weave_item(repo, spec):
             add_after(body_open, ghost(sec, 'S'))
         elif sec.kind == 'tail':
             add_before(body_close, ghost(sec, 'S'))
-        elif sec.kind in ('loop', 'loop-body', 'loop-end'):
+        elif sec.kind in ('loop', 'loop-body', 'loop-end', 'loop-after'):
             if sec.n >= len(loops):
                 raise Undecided('%s %d: no such loop in %s' % (sec.kind, sec.n, spec.name))
             lk, lb, le = loops[sec.n]
@@ -427,8 +508,23 @@ def weave_item(repo, spec):
                 add_before(lb, ghost(sec, 'H'))
             elif sec.kind == 'loop-body':
                 add_after(lb, ghost(sec, 'S'))
+            elif sec.kind == 'loop-after':
+                add_after(le, ghost(sec, 'S'))
             else:
                 add_before(le, ghost(sec, 'S'))
+        elif sec.kind == 'closure-spec':
+            # R6: `|p| EXPR`  =>  `|p| -> (name: T) <ghost clauses> { EXPR }`
+            cls = _closures(toks, body_open + 1, body_close)
+            if sec.n >= len(cls):
+                raise Undecided('closure-spec %d: no such closure in %s' % (sec.n, spec.name))
+            bo, bc, bs, be, is_block = cls[sec.n]
+            nm, ty = sec.arg.split(None, 1)
+            if toks[bc + 1].text == '-':
+                raise Undecided('closure-spec %d: closure already has a return type in %s' % (sec.n, spec.name))
+            add_after(bc, '/*R6<*/ -> (%s: %s) /*>R6*/' % (nm, ty) + ghost(sec, 'H') + ('' if is_block else '/*R6<*/{/*>R6*/'))
+            if not is_block:
+                add_after(be, '/*R6<*/}/*>R6*/')
+            rules['R6'] += 1
         elif sec.kind in ('before', 'after'):
             pt = [t.text for t in tokenize(sec.arg)]
             hits = _find_pattern(toks, pt, 0, n)
@@ -520,7 +616,7 @@ def weave(repo, vc_text, incdir=None):
 # ---------------------------------------------------------------------------------------------
 # erasure check (independent of the weaver's bookkeeping: works on the woven text + a fresh extraction)
 
-_marker = re.compile(r'/\*(G<[HS]|>G|R0<|>R0|R1<|>R1|R2<|>R2|R2x<|>R2x|R3<|>R3|R3x<|>R3x|R4[a-ex]<|>R4[a-epx]|R4p<|ITEM<[^*]*|>ITEM)\*/')
+_marker = re.compile(r'/\*(G<[HS]|>G|R0<|>R0|R1<|>R1|R2<|>R2|R2x<|>R2x|R3<|>R3|R3x<|>R3x|R4[a-ex]<|>R4[a-epx]|R4p<|R5<|>R5|R6<|>R6|ITEM<[^*]*|>ITEM)\*/')
 
 
 def _check_ghost_form(seg, position, where):
@@ -600,7 +696,7 @@ def erase_check(repo, woven, items):
         kept = []
         pos = 0
         stack = None
-        counts = {'R0': 0, 'R1': 0, 'R2': 0, 'R3': 0, 'R4': 0, 'ghost_segments': 0}
+        counts = {'R0': 0, 'R1': 0, 'R2': 0, 'R3': 0, 'R4': 0, 'R5': 0, 'R6': 0, 'ghost_segments': 0}
         r4_pat, r4_name = [], []
         for m in _marker.finditer(region):
             tag = m.group(1)
@@ -647,6 +743,20 @@ def erase_check(repo, woven, items):
                         raise Undecided('erasure: bad R3x segment %r in %s' % (seg, spec.name))
                     kept.append(seg)
                     counts['R3'] += 1
+                elif otag == 'R5<' and tag == '>R5':
+                    if [t.text for t in tokenize(seg)] != [',', 'Structural']:
+                        raise Undecided('erasure: bad R5 segment %r in %s' % (seg, spec.name))
+                    counts['R5'] += 1
+                elif otag == 'R6<' and tag == '>R6':
+                    st = [t.text for t in tokenize(seg)]
+                    if st in (['{'], ['}']):
+                        pass
+                    elif (len(st) >= 6 and st[0] == '-' and st[1] == '>' and st[2] == '(' and st[4] == ':' and st[-1] == ')'
+                          and re.fullmatch(r'[A-Za-z_]\w*', st[3])
+                          and all(re.fullmatch(r"[A-Za-z_]\w*|'\w+|[&<>,:()\[\]]", x) for x in st[5:-1])):
+                        counts['R6'] += 1
+                    else:
+                        raise Undecided('erasure: bad R6 segment %r in %s' % (seg, spec.name))
                 elif otag == 'R4x<' and tag == '>R4x':
                     st = [t.text for t in tokenize(seg)]
                     if not (len(st) >= 3 and st[0] == 'for' and st[-1] == 'in'):
